@@ -22,6 +22,7 @@ class Ids:
 
 
 FS = ["id", "inc", "dbl"]
+P_LIKE = float(os.environ.get("GEN_PLIKE", "0.3"))   # share of cases in which operations repeat
 
 
 class Gen:
@@ -370,6 +371,34 @@ def collect_tags(x, acc):
             collect_tags(v, acc)
 
 
+def likeify(progs, rng):
+    """C02's look-alikes: several requests of one program carry EQUAL operations (same tag and value; VOp's
+    equality does not look at the stamp, which is what the driver tells them apart by).  Constant
+    operations copy tag and value from an earlier one."""
+    seen = []
+
+    def walk(x):
+        if isinstance(x, dict):
+            isop = x.get("k") in ("req", "stream", "notify") or x.get("op") in ("req", "notify", "open")
+            const = ("val" in x and isinstance(x["val"], int)) or (isinstance(x.get("src"), dict) and "c" in x["src"])
+            if isop and "tag" in x and const:
+                if seen and rng.random() < 0.6:
+                    t, v = rng.choice(seen)
+                    x["tag"] = t
+                    if "val" in x:
+                        x["val"] = v
+                    else:
+                        x["src"] = {"c": v}
+                seen.append((x["tag"], x["val"] if "val" in x else x["src"]["c"]))
+            for v in x.values():
+                walk(v)
+        elif isinstance(x, list):
+            for v in x:
+                walk(v)
+
+    walk(progs)
+
+
 def make_case(rng, host, depth, family, nsteps, name, budget=8, p_bad=0.0):
     ids = Ids()
     legacy = host == "core_legacy"
@@ -382,9 +411,16 @@ def make_case(rng, host, depth, family, nsteps, name, budget=8, p_bad=0.0):
         g.mixed_api = rng.choice([0.0, 0.15, 0.3])
     progs = [g.cmd(0)]
     follow = {}
+    # (a generator of its own, so that the cases of a seed are what they were before look-alikes existed)
+    like = random.Random(f"like-{name}")
+    like = like if like.random() < P_LIKE else None
+    if direct and like:
+        likeify(progs, like)
     if not direct:
         for _ in range(rng.choice([0, 1, 2])):
             progs.append(g.cmd(0))
+        if like:
+            likeify(progs, like)
         tags = []
         collect_tags(progs, tags)
         # follow-up programs: small, and their own events have no follow-ups (acyclic)
